@@ -715,6 +715,10 @@ fn judge_resolve(c: &ResolveCase, real: Option<(&RealEnv, &Path, u64)>, l: &mut 
                     // on the real file system the tree's `<std>` directory is NOT the built-in library
                     std_disk = true;
                     Want::Fail
+                } else if real.is_some() && r.strip_prefix("./").unwrap_or(r).starts_with(model::STD_PREFIX) {
+                    // a spelling (`/<std>/x.asm`, `sub/../<std>/x.asm`) that only *resolves* to a `<std>/` name: the
+                    // statement does not say whether that names the library or the directory on disk — no verdict
+                    Want::None
                 } else {
                     Want::Payload(b)
                 }
@@ -1133,8 +1137,9 @@ pub fn run(ctx: &Ctx) -> Report {
     stash(&mut parts, 5, par_cases(&fcases, judge_fn));
     breakdown.insert("ranges", json!({"functions": FUNCS, "file_units": "0..4", "start": "absent, 0..6", "length": "absent, 0..6", "text_formats": FORMATS, "cases": fcases.len()}));
 
-    // ---- thorough: the real binary on the real file system
-    if ctx.thorough {
+    // ---- the real binary on the real file system (quick: the resolve family over <= 2 components; thorough: also
+    //      the include graphs and the longer path strings)
+    {
         match RealEnv::new("t") {
             Err(e) => {
                 machinery.get_or_insert(e);
@@ -1142,7 +1147,7 @@ pub fn run(ctx: &Ctx) -> Report {
             Ok(env) => {
                 // graphs: n <= 3, every layout, plain and backslash spelling
                 let mut real_graph_cases = 0u64;
-                for n in 1..=3usize {
+                for n in 1..=(if ctx.thorough { 3usize } else { 0 }) {
                     let mut variants = vec![];
                     for layout in layouts_all(n) {
                         for style in [0usize, 2] {
@@ -1172,12 +1177,12 @@ pub fn run(ctx: &Ctx) -> Report {
                         machinery.get_or_insert(e);
                     }
                 }
-                breakdown.insert("graphs_real_fs", json!({"files": "1..3", "layouts": "all", "styles": "plain (n<=3), backslash (n<=2)", "adjacent_include_lines": "n<=2 every layout, n=3 flat layout", "cases": real_graph_cases}));
+                if ctx.thorough { breakdown.insert("graphs_real_fs", json!({"files": "1..3", "layouts": "all", "styles": "plain (n<=3), backslash (n<=2)", "adjacent_include_lines": "n<=2 every layout, n=3 flat layout", "cases": real_graph_cases})); }
 
                 // resolve under strace: <= 3 components, uniform separators, plus the 4-component strings that start with
                 // `<std>`, `..` or `sub` and end in `x.asm` (the only ones that can name a file two levels up)
-                let mut real_rels = path_strings(&rcomps, 3, false);
-                for r in path_strings(&rcomps, 4, false) {
+                let mut real_rels = path_strings(&rcomps, if ctx.thorough { 3 } else { 2 }, false);
+                for r in path_strings(&rcomps, if ctx.thorough { 4 } else { 0 }, false) {
                     let first = r.trim_start_matches(|c| c == '/' || c == '\\');
                     if (first.starts_with("<std>") || first.starts_with("..") || first.starts_with("sub")) && r.ends_with("x.asm") && !real_rels.contains(&r) {
                         real_rels.push(r);
